@@ -213,6 +213,164 @@ static void run_c02(void)
     }
 }
 
+/* ------------------------------------------------------------------ C03 (part i, single-block entry points) */
+
+typedef struct { int vi, bs, klen; } C03Ctx;
+
+static void c03_case(const uint8_t *buf, size_t m, void *arg)
+{
+    C03Ctx *c = arg;
+    const uint8_t *key = buf, *blk = buf + c->klen;
+    uint8_t t[16], u[16];
+    char sig[96], cd[400];
+    int order;
+    (void)m;
+    for (order = 0; order < 2; ++order) {   /* 0: D(E(x)), 1: E(D(y)) */
+        ++g_cnt.evaluations;
+        if (!real_skinny(c->bs, key, c->klen, order, blk, t) || !real_skinny(c->bs, key, c->klen, !order, t, u)) {
+            violation("C03/set_key-rejected", "", "set_key rejected a primary size"); return;
+        }
+        if (memcmp(t, blk, (size_t)c->bs) != 0) distinct_add_u64(fnv1a(t, (size_t)c->bs, fnv1a(buf, m, (uint64_t)(c->vi * 2 + order))));
+        if (memcmp(u, blk, (size_t)c->bs) != 0) {
+            snprintf(sig, sizeof(sig), "C03/%s/%s", VNAME[c->vi], order ? "E(D(y))" : "D(E(x))");
+            snprintf(cd, sizeof(cd), "c03 %d %s", c->vi, hexs(buf, m));
+            violation(sig, cd, "key=%s block=%s round trip gives %s", hexs(key, (size_t)c->klen), hexs(blk, (size_t)c->bs), hexs(u, (size_t)c->bs));
+        }
+    }
+}
+
+typedef struct { int rounds; } C03mCtx;
+
+static void c03m_case(const uint8_t *buf, size_t m, void *arg)
+{
+    C03mCtx *c = arg;
+    const uint8_t *key = buf, *tweak = buf + 16, *blk = buf + 24;
+    MantisKey_t e, d, s;
+    uint8_t t[8], u[8], w[8];
+    char sig[96], cd[200];
+    int order;
+    (void)m;
+    memset(&e, 0x11, sizeof(e)); memset(&d, 0x22, sizeof(d));
+    if (mantis_set_key(&e, key, 16, (unsigned)c->rounds, MANTIS_ENCRYPT) != 1 ||
+        mantis_set_key(&d, key, 16, (unsigned)c->rounds, MANTIS_DECRYPT) != 1 ||
+        mantis_set_tweak(&e, tweak, 8) != 1 || mantis_set_tweak(&d, tweak, 8) != 1) {
+        violation("C03/mantis/setup-rejected", "", "set_key/set_tweak returned 0"); return;
+    }
+    snprintf(cd, sizeof(cd), "c03m %d %s", c->rounds, hexs(buf, 32));
+    for (order = 0; order < 2; ++order) {
+        ++g_cnt.evaluations;
+        mantis_ecb_crypt(t, blk, order ? &d : &e);
+        mantis_ecb_crypt(u, t, order ? &e : &d);
+        mantis_ecb_crypt_tweaked(w, t, tweak, order ? &e : &d);
+        if (memcmp(t, blk, 8) != 0) distinct_add_u64(fnv1a(t, 8, fnv1a(buf, 32, (uint64_t)(c->rounds * 2 + order))));
+        if (memcmp(u, blk, 8) != 0 || memcmp(w, blk, 8) != 0) {
+            snprintf(sig, sizeof(sig), "C03/mantis%d/%s", c->rounds, order ? "E(D(y))" : "D(E(x))");
+            violation(sig, cd, "key=%s tweak=%s block=%s round trip gives %s / %s", hexs(key, 16), hexs(tweak, 8), hexs(blk, 8), hexs(u, 8), hexs(w, 8));
+        }
+    }
+    /* one swap == the inverse with the tweak preserved */
+    s = e;
+    mantis_swap_modes(&s);
+    mantis_ecb_crypt(t, blk, &e);
+    mantis_ecb_crypt(u, t, &s);
+    ++g_cnt.evaluations;
+    if (memcmp(u, blk, 8) != 0) {
+        snprintf(sig, sizeof(sig), "C03/mantis%d/swap_modes", c->rounds);
+        violation(sig, cd, "swapped schedule does not invert the original: key=%s tweak=%s block=%s", hexs(key, 16), hexs(tweak, 8), hexs(blk, 8));
+    }
+}
+
+static void run_c03(void)
+{
+    int vi, r;
+    if (g_opts.replay) {
+        C03Ctx c; C03mCtx mc; uint8_t buf[64]; char hx[200]; int n; const uint8_t *pt, *ct;
+        g_opts.nshards = 1; g_opts.shard = 0;
+        if (sscanf(g_opts.replay, "c03 %d %199s", &c.vi, hx) == 2) {
+            ref_skinny_vector(c.vi, &c.bs, &c.klen, &pt, &ct);
+            n = unhex(buf, sizeof(buf), hx);
+            c03_case(buf, (size_t)n, &c);
+        } else if (sscanf(g_opts.replay, "c03m %d %199s", &mc.rounds, hx) == 2) {
+            n = unhex(buf, sizeof(buf), hx);
+            c03m_case(buf, (size_t)n, &mc);
+        } else engine_error("bad replay");
+        return;
+    }
+    for (vi = 0; vi < 6; ++vi) {
+        C03Ctx c; const uint8_t *key, *pt, *ct; uint8_t vec[64];
+        key = ref_skinny_vector(vi, &c.bs, &c.klen, &pt, &ct);
+        c.vi = vi;
+        memcpy(vec, key, (size_t)c.klen); memcpy(vec + c.klen, pt, (size_t)c.bs);
+        fam_iterate((size_t)(c.klen + c.bs), vec, tier_thorough(), c03_case, &c);
+        sample_add("%s D(E(x)) and E(D(x)) over families on key=%s block=%s", VNAME[vi], hexs(key, (size_t)c.klen), hexs(pt, (size_t)c.bs));
+    }
+    for (r = 5; r <= 8; ++r) {
+        C03mCtx c; const uint8_t *key, *tweak, *pt, *ct; int rr; uint8_t vec[32];
+        key = ref_mantis_vector(r - 5, &rr, &tweak, &pt, &ct);
+        c.rounds = r;
+        memcpy(vec, key, 16); memcpy(vec + 16, tweak, 8); memcpy(vec + 24, pt, 8);
+        fam_iterate(32, vec, tier_thorough(), c03m_case, &c);
+    }
+}
+
+/* ------------------------------------------------------------------ C04 (conformance of the tweakable cipher on fresh schedules) */
+
+typedef struct { int bs, klen, dir, how; } C04Ctx;   /* how 0: set_tweak(full), 1: fresh schedule (tweak region forced to zero) */
+
+static void c04_case(const uint8_t *buf, size_t m, void *arg)
+{
+    C04Ctx *c = arg;
+    uint8_t tweak[16], real[16], ref[16];
+    const uint8_t *key = buf + c->bs, *blk = buf + c->bs + c->klen;
+    char sig[96], cd[400];
+    int ok;
+    ++g_cnt.evaluations;
+    memcpy(tweak, buf, (size_t)c->bs);
+    if (c->how == 1) memset(tweak, 0, 16);
+    if (c->bs == 16) {
+        Skinny128TweakedKey_t tk; memset(&tk, 0x3C, sizeof(tk));
+        ok = skinny128_set_tweaked_key(&tk, key, (unsigned)c->klen) == 1;
+        if (ok && c->how == 0) ok = skinny128_set_tweak(&tk, tweak, 16) == 1;
+        if (ok) { if (c->dir) skinny128_ecb_decrypt(real, blk, &tk.ks); else skinny128_ecb_encrypt(real, blk, &tk.ks); }
+    } else {
+        Skinny64TweakedKey_t tk; memset(&tk, 0x3C, sizeof(tk));
+        ok = skinny64_set_tweaked_key(&tk, key, (unsigned)c->klen) == 1;
+        if (ok && c->how == 0) ok = skinny64_set_tweak(&tk, tweak, 8) == 1;
+        if (ok) { if (c->dir) skinny64_ecb_decrypt(real, blk, &tk.ks); else skinny64_ecb_encrypt(real, blk, &tk.ks); }
+    }
+    snprintf(cd, sizeof(cd), "c04 %d %d %d %d %s", c->bs, c->klen, c->dir, c->how, hexs(buf, m));
+    if (!ok) { violation("C04/setup-rejected", cd, "set_tweaked_key/set_tweak returned 0"); return; }
+    if (c->dir) ref_skinny_tweak_decrypt(c->bs, key, c->klen, tweak, blk, ref);
+    else ref_skinny_tweak_encrypt(c->bs, key, c->klen, tweak, blk, ref);
+    if (memcmp(real, blk, (size_t)c->bs) != 0)
+        distinct_add_u64(fnv1a(real, (size_t)c->bs, fnv1a(buf, m, (uint64_t)(c->bs + c->klen * 4 + c->dir * 2 + c->how))));
+    if (memcmp(real, ref, (size_t)c->bs) != 0) {
+        snprintf(sig, sizeof(sig), "C04/skinny%d-tweaked-%d/%s/%s", c->bs * 8, c->klen * 8, c->how ? "fresh-schedule" : "set_tweak", c->dir ? "decrypt" : "encrypt");
+        violation(sig, cd, "tweak=%s key=%s in=%s real=%s spec(TK1=tweak, domain constant)=%s", hexs(tweak, (size_t)c->bs),
+                  hexs(key, (size_t)c->klen), hexs(blk, (size_t)c->bs), hexs(real, (size_t)c->bs), hexs(ref, (size_t)c->bs));
+    }
+}
+
+static void run_c04(void)
+{
+    C04Ctx c; int z;
+    if (g_opts.replay) {
+        uint8_t buf[80]; char hx[200]; int n;
+        g_opts.nshards = 1; g_opts.shard = 0;
+        if (sscanf(g_opts.replay, "c04 %d %d %d %d %199s", &c.bs, &c.klen, &c.dir, &c.how, hx) != 5) engine_error("bad replay");
+        n = unhex(buf, sizeof(buf), hx);
+        c04_case(buf, (size_t)n, &c);
+        return;
+    }
+    for (c.bs = 8; c.bs <= 16; c.bs += 8) for (z = 1; z <= 2; ++z) for (c.dir = 0; c.dir < 2; ++c.dir) for (c.how = 0; c.how < 2; ++c.how) {
+        uint8_t vec[64];
+        c.klen = z * c.bs;
+        lcg_fill(vec, sizeof(vec), 808 + (uint32_t)(c.bs + z));
+        fam_iterate((size_t)(2 * c.bs + c.klen), vec, tier_thorough() && c.how == 0, c04_case, &c);
+        if (c.dir == 0 && c.how == 0) sample_add("skinny%d tweaked, %d-bit key: families over tweak||key||block, background %s", c.bs * 8, c.klen * 8, hexs(vec, (size_t)(2 * c.bs + c.klen)));
+    }
+}
+
 int main(int argc, char **argv)
 {
     parse_opts(argc, argv);
@@ -220,6 +378,8 @@ int main(int argc, char **argv)
     if (!g_opts.sub) engine_error("--sub required");
     if (!strcmp(g_opts.sub, "c01")) run_c01();
     else if (!strcmp(g_opts.sub, "c02")) run_c02();
+    else if (!strcmp(g_opts.sub, "c03")) run_c03();
+    else if (!strcmp(g_opts.sub, "c04")) run_c04();
     else engine_error("unknown sub %s", g_opts.sub);
     return finish();
 }
